@@ -283,7 +283,370 @@ theorem dispatch_eq_ref_partial (sat : Nat → Bytes → Bool) (noRoute : Bool) 
       by_cases hnr2 : noRoute = true
       · have h1 : Ctx.fresh.all = [] := rfl
         have h2 : ∀ n, Ctx.fresh.param n = [] := fun _ => rfl
-        simp only [hnr2, if_true, notFoundPattern, lookupAsk, h1, h2, bindGet, Option.getD_none]
+        have h3 : notFoundPattern = "_not_found".toList := rfl
+        simp only [hnr2, if_true]
+        rw [h1, h3]
+        simp only [h2, lookupAsk, bindGet, Option.getD_none]
       · simp only [hnr2, Bool.false_eq_true, if_false]
+
+
+/-- **Every deviation is classified** (the form DESIGN.md §2.4 uses): if the tree engine does not
+produce the reference outcome, the request is in one of the recorded classes. -/
+theorem deviation_classified (sat : Nat → Bytes → Bool) (noRoute : Bool) (script : List Reg) (R : List Route)
+    (hR : specRoutes script = some R) (hN : normal R = true) (hstd : ∀ g ∈ script, g.method ∈ stdMethods)
+    (req : Req) (hp : req.path.head? = some '/')
+    (hdev : serve sat (build noRoute script) req ≠ refMatch sat noRoute R req (cutAny req.path)) :
+    dShadow R req (cutAny req.path) = true ∨ dNames R req (cutAny req.path) = true ∨
+      dCfall sat R req (cutAny req.path) = true := by
+  cases hS : dShadow R req (cutAny req.path) with
+  | true => left; rfl
+  | false =>
+    cases hNm : dNames R req (cutAny req.path) with
+    | true => right; left; rfl
+    | false =>
+      cases hC : dCfall sat R req (cutAny req.path) with
+      | true => right; right; rfl
+      | false => exact absurd (dispatch_eq_ref_partial sat noRoute script R hR hN hstd req hp hS hNm hC) hdev
+
+/-- the class token the driver prints is `-` only where the equality holds -/
+theorem classify_dash (sat : Nat → Bytes → Bool) (noRoute : Bool) (script : List Reg) (R : List Route)
+    (hR : specRoutes script = some R) (hN : normal R = true) (hstd : ∀ g ∈ script, g.method ∈ stdMethods)
+    (req : Req) (hp : req.path.head? = some '/')
+    (hcls : classify sat R req (cutAny req.path) = "-") :
+    serve sat (build noRoute script) req = refMatch sat noRoute R req (cutAny req.path) := by
+  unfold classify at hcls
+  cases hO : dOverwrite R req (cutAny req.path) with
+  | true => simp [hO] at hcls
+  | false =>
+    cases hNm : dNames R req (cutAny req.path) with
+    | true => simp [hO, hNm] at hcls
+    | false =>
+      cases hS : dShadow R req (cutAny req.path) with
+      | true => simp [hO, hNm, hS] at hcls
+      | false =>
+        cases hC : dCfall sat R req (cutAny req.path) with
+        | true => simp [hO, hNm, hS, hC] at hcls
+        | false => exact dispatch_eq_ref_partial sat noRoute script R hR hN hstd req hp hS hNm hC
+
+/-- **Allow is exact**: under the guards a 405 lists exactly (sorted) the standard methods that have a
+matching route, and a 405 is answered exactly when the request method has none but some method has. -/
+theorem allow_exact (sat : Nat → Bytes → Bool) (noRoute : Bool) (script : List Reg) (R : List Route)
+    (hR : specRoutes script = some R) (hN : normal R = true) (hstd : ∀ g ∈ script, g.method ∈ stdMethods)
+    (req : Req) (hp : req.path.head? = some '/')
+    (hS : dShadow R req (cutAny req.path) = false) (hNm : dNames R req (cutAny req.path) = false)
+    (hC : dCfall sat R req (cutAny req.path) = false)
+    (hnone : cands sat R req.method (cutAny req.path) = []) :
+    (serve sat (build noRoute script) req).ran = none ∧
+    ((allowedSet sat R (cutAny req.path) ≠ [] →
+        (serve sat (build noRoute script) req).status = 405 ∧
+        (serve sat (build noRoute script) req).allow = sortBytes (allowedSet sat R (cutAny req.path))) ∧
+     (allowedSet sat R (cutAny req.path) = [] →
+        (serve sat (build noRoute script) req).status = 404 ∧
+        (serve sat (build noRoute script) req).noRoute = noRoute)) := by
+  rw [dispatch_eq_ref_partial sat noRoute script R hR hN hstd req hp hS hNm hC]
+  have href : refRoute sat R req.method (cutAny req.path) = none := by unfold refRoute; rw [hnone]; rfl
+  unfold refMatch
+  simp only [href]
+  refine ⟨?_, ?_, ?_⟩
+  · split
+    · rfl
+    · split <;> rfl
+  · intro ha
+    simp [ha]
+  · intro ha
+    simp only [ha, ne_eq, not_true_eq_false, if_false]
+    cases noRoute <;> simp
+
+
+/-- **Soundness, without any guard**: whenever a route handler runs, it belongs to a registered route of
+the request method whose pattern matches the path segment-wise — for every script of the vocabulary,
+shadowing, name clashes and overwritten leaves included. -/
+theorem lookup_sound (sat : Nat → Bytes → Bool) (noRoute : Bool) (script : List Reg) (R : List Route)
+    (hR : specRoutes script = some R) (hN : normal R = true)
+    (req : Req) (hp : req.path.head? = some '/') (rid : Nat)
+    (h : (serve sat (build noRoute script) req).ran = some rid) :
+    ∃ r ∈ R, r.rid = rid ∧ r.method = req.method ∧
+      (matchPat (cutAny req.path).trail r.pat (cutAny req.path).segs).isSome = true := by
+  rw [lemma_serve_lookup] at h
+  cases hl : lookupM sat (build noRoute script) req.method req.path with
+  | none =>
+    rw [hl] at h
+    simp only [notFound] at h
+    split at h
+    · cases h
+    · split at h <;> cases h
+  | some res =>
+    obtain ⟨lf, ctx⟩ := res
+    rw [hl] at h
+    simp only [served, Option.some.injEq] at h
+    unfold lookupM at hl
+    by_cases hm : req.method ∈ stdMethods
+    · rw [treeOf_build noRoute script R hR req.method hm] at hl
+      by_cases hf : R.filter (·.method = req.method) = []
+      · simp [hf] at hl
+      · simp only [hf, if_false, Option.bind_some] at hl
+        obtain ⟨r, hr, hrm, hlf, hmatch⟩ := getRoute_sound sat R (lemma_normalR R hN) req.method req.path hp lf ctx hl
+        exact ⟨r, hr, by rw [← h, hlf]; rfl, hrm, hmatch⟩
+    · have : treeOf (build noRoute script) req.method = none := by simp [treeOf, hm]
+      rw [this] at hl
+      simp at hl
+
+/-! ### the reference outcome meets the relational oracle the driver evaluates -/
+
+theorem lemma_mem_insertSorted (x y : Bytes) (l : List Bytes) : y ∈ insertSorted x l ↔ y = x ∨ y ∈ l := by
+  induction l with
+  | nil => simp [insertSorted]
+  | cons a rest ih =>
+    simp only [insertSorted]
+    split
+    · simp only [List.mem_cons, ih]
+      constructor
+      · rintro (h | h | h)
+        · right; left; exact h
+        · left; exact h
+        · right; right; exact h
+      · rintro (h | h | h)
+        · right; left; exact h
+        · left; exact h
+        · right; right; exact h
+    · simp
+
+theorem lemma_mem_sortBytes (y : Bytes) (l : List Bytes) : y ∈ sortBytes l ↔ y ∈ l := by
+  unfold sortBytes
+  induction l with
+  | nil => simp
+  | cons a rest ih => simp only [List.foldr_cons, lemma_mem_insertSorted, ih, List.mem_cons]
+
+theorem lemma_sameSet_sort (l : List Bytes) : sameSet (sortBytes l) l = true := by
+  unfold sameSet
+  simp only [Bool.and_eq_true, List.all_eq_true, List.contains_iff_mem]
+  exact ⟨fun x hx => (lemma_mem_sortBytes x l).mp hx, fun x hx => (lemma_mem_sortBytes x l).mpr hx⟩
+
+theorem lemma_bindGet_mem (b : List (Bytes × Bytes)) (hd : distinct (b.map (·.1)) = true) (n v : Bytes)
+    (h : (n, v) ∈ b) : bindGet n b = some v := by
+  induction b with
+  | nil => simp at h
+  | cons a rest ih =>
+    obtain ⟨k, w⟩ := a
+    simp only [List.map_cons, distinct, Bool.and_eq_true, Bool.not_eq_true'] at hd
+    simp only [List.mem_cons, Prod.mk.injEq] at h
+    rcases h with ⟨rfl, rfl⟩ | h
+    · simp [bindGet]
+    · have hne : ¬ k = n := by
+        intro e; subst e
+        have : k ∈ rest.map (·.1) := List.mem_map.mpr ⟨(k, v), h, rfl⟩
+        have := List.contains_iff_mem.mpr this
+        rw [this] at hd; exact absurd hd.1 (by simp)
+      simp only [bindGet, hne, if_false]
+      exact ih hd.2 h
+
+theorem lemma_bindGet_lookupAsk (b : List (Bytes × Bytes)) (ask : List Bytes) (n : Bytes) :
+    bindGet n (lookupAsk b ask) = if n ∈ ask then some ((bindGet n b).getD []) else none := by
+  unfold lookupAsk
+  induction ask with
+  | nil => simp [bindGet]
+  | cons a rest ih =>
+    simp only [List.map_cons, bindGet, ih, List.mem_cons]
+    by_cases ha : a = n
+    · subst ha; simp
+    · have : ¬ n = a := fun e => ha e.symm
+      simp [ha, this]
+
+/-- the deterministic reference outcome is one of the outcomes the relational oracle admits -/
+theorem ref_meets_oracle (sat : Nat → Bytes → Bool) (noRoute : Bool) (R : List Route) (hN : normal R = true)
+    (req : Req) (p : RPath) : specOK sat R req p (refMatch sat noRoute R req p) = true := by
+  unfold specOK refMatch
+  by_cases hc : cands sat R req.method p ≠ []
+  · simp only [hc, ne_eq, not_false_eq_true, if_true]
+    have hsome : (refRoute sat R req.method p).isSome = true := by
+      unfold refRoute
+      rw [lemma_pick_isSome]
+      cases hcs : cands sat R req.method p with
+      | nil => exact absurd hcs hc
+      | cons a rest => rfl
+    cases href : refRoute sat R req.method p with
+    | none => rw [href] at hsome; simp at hsome
+    | some ρ =>
+      simp only
+      have hρc : ρ ∈ cands sat R req.method p := lemma_pick_mem _ _ href
+      have hρ := List.mem_filter.mp hρc
+      simp only [decide_eq_true_eq] at hρ
+      obtain ⟨hρR, hρmeth, hρm⟩ := hρ
+      obtain ⟨b, hb⟩ : ∃ b, routeMatch sat ρ p = some b := by
+        cases h : routeMatch sat ρ p with
+        | none => rw [h] at hρm; simp at hρm
+        | some b => exact ⟨b, rfl⟩
+      have hmb : matchPat p.trail ρ.pat p.segs = some b := by
+        unfold routeMatch at hb
+        cases hm : matchPat p.trail ρ.pat p.segs with
+        | none => simp [hm] at hb
+        | some b' =>
+          simp only [hm] at hb
+          split at hb
+          · injection hb with hb; rw [hb]
+          · cases hb
+      have hn := (lemma_normalR R hN ρ hρR).1
+      have hkeys : distinct (b.map (·.1)) = true := by rw [matchPat_keys _ _ _ _ hmb]; exact hn.dist
+      simp only [List.any_eq_true, Bool.and_eq_true, decide_eq_true_eq]
+      refine ⟨ρ, hρR, ⟨rfl, ?_⟩, ?_⟩
+      · -- admissible
+        unfold admissible
+        simp only [Bool.and_eq_true, List.contains_iff_mem, List.all_eq_true, Bool.not_eq_true']
+        refine ⟨hρc, ?_⟩
+        have hmatchall : ∀ c ∈ cands sat R req.method p, (matchPat p.trail c.pat p.segs).isSome = true := by
+          intro c hcm
+          have hcc := (List.mem_filter.mp hcm).2
+          simp only [decide_eq_true_eq] at hcc
+          exact routeMatch_isSome_match sat c p hcc.2
+        rcases pick_nec p.trail p.segs _ none ρ hmatchall (by intro c hcc; cases hcc) href with ⟨h, _⟩ | ⟨l1, l2, hl12, _, h1, h2⟩
+        · cases h
+        · intro c hcm
+          rw [hl12] at hcm
+          simp only [List.mem_append, List.mem_cons] at hcm
+          rcases hcm with hcm | rfl | hcm
+          · exact h1 c hcm
+          · exact better_irrefl _
+          · exact better_asymm _ _ (h2 c hcm)
+      · -- reads its own bindings
+        unfold readsOwn
+        simp only [hb, Option.getD_some, List.all_eq_true, Bool.and_eq_true, decide_eq_true_eq]
+        intro kv hkv
+        obtain ⟨n, v⟩ := kv
+        have hbg := lemma_bindGet_mem b hkeys n v hkv
+        refine ⟨?_, ?_⟩
+        · simp only
+          unfold SMap.ofList
+          rw [get_setAll, lastB_distinct n b hkeys, hbg]
+          simp [SMap.get]
+        · simp only
+          rw [lemma_bindGet_lookupAsk]
+          by_cases hask : n ∈ req.ask
+          · simp [hask, hbg]
+          · simp [hask]
+  · have hc' : cands sat R req.method p = [] := by
+      cases hcs : cands sat R req.method p with
+      | nil => rfl
+      | cons a rest => rw [hcs] at hc; simp at hc
+    have href : refRoute sat R req.method p = none := by unfold refRoute; rw [hc']; rfl
+    simp only [hc', ne_eq, not_true_eq_false, if_false, href]
+    by_cases ha : allowedSet sat R p ≠ []
+    · simp [ha, lemma_sameSet_sort]
+    · simp only [ha, if_false]
+      cases noRoute <;> simp
+
+/-- **C01, oracle form**: under the guards the observation of the tree engine satisfies the relational
+oracle (`specOK`) that the driver evaluates on the implementation's observation. -/
+theorem C01_meets_oracle (sat : Nat → Bytes → Bool) (noRoute : Bool) (script : List Reg) (R : List Route)
+    (hR : specRoutes script = some R) (hN : normal R = true) (hstd : ∀ g ∈ script, g.method ∈ stdMethods)
+    (req : Req) (hp : req.path.head? = some '/')
+    (hS : dShadow R req (cutAny req.path) = false) (hNm : dNames R req (cutAny req.path) = false)
+    (hC : dCfall sat R req (cutAny req.path) = false) :
+    specOK sat R req (cutAny req.path) (serve sat (build noRoute script) req) = true := by
+  rw [dispatch_eq_ref_partial sat noRoute script R hR hN hstd req hp hS hNm hC]
+  exact ref_meets_oracle sat noRoute R hN req _
+
+
+/-! ### witnesses of the recorded findings (each replayed on the implementation: corpus/C01) and of the
+repaired ones (the as-shipped definitions are kept in the model as `…AsIs` / `wildUnchecked`) -/
+
+def B (s : String) : Bytes := s.toList
+def anySat : Nat → Bytes → Bool := fun _ _ => true
+def G : Bytes := B "GET"
+def reg (m p : String) (cons : List (Bytes × Nat) := []) : Reg := ⟨B m, [], B p, cons⟩
+
+/-- K01a — one parameter child per node keeps the first registered name -/
+def k01aScript : List Reg := [reg "GET" "/a/:x/b", reg "GET" "/a/:y/c"]
+def k01aReq : Req := ⟨G, B "/a/1/c", [B "x", B "y"]⟩
+
+theorem K01a_witness : ∃ R, specRoutes k01aScript = some R ∧ normal R = true ∧
+    serve anySat (build false k01aScript) k01aReq ≠ refMatch anySat false R k01aReq (cutAny k01aReq.path) ∧
+    classify anySat R k01aReq (cutAny k01aReq.path) = "names" :=
+  ⟨_, rfl, by decide, by decide, by decide⟩
+
+/-- K01b — a static edge shadows the parameter sibling, the descent does not backtrack -/
+def k01bScript : List Reg := [reg "GET" "/users/:id/posts", reg "GET" "/users/admin/:x/y"]
+def k01bReq : Req := ⟨G, B "/users/admin/posts", [B "id"]⟩
+
+theorem K01b_witness : ∃ R, specRoutes k01bScript = some R ∧ normal R = true ∧
+    (serve anySat (build false k01bScript) k01bReq).status = 404 ∧
+    (refMatch anySat false R k01bReq (cutAny k01bReq.path)).ran = some 0 ∧
+    classify anySat R k01bReq (cutAny k01bReq.path) = "shadow" :=
+  ⟨_, rfl, by decide, by decide, by decide, by decide⟩
+
+/-- K01c — routes of one shape overwrite each other: constraint 0 accepts only digits, constraint 1 only letters -/
+def k01cSat : Nat → Bytes → Bool := fun cid v => (cid == 0 && v == B "123") || (cid == 1 && v == B "abc")
+def k01cScript : List Reg := [reg "GET" "/u/:id" [(B "id", 0)], reg "GET" "/u/:name" [(B "name", 1)]]
+def k01cReq1 : Req := ⟨G, B "/u/123", [B "id"]⟩
+def k01cReq2 : Req := ⟨G, B "/u/abc", [B "name"]⟩
+
+theorem K01c_witness : ∃ R, specRoutes k01cScript = some R ∧ normal R = true ∧
+    (serve k01cSat (build false k01cScript) k01cReq1).status = 404 ∧
+    (serve k01cSat (build false k01cScript) k01cReq2).status = 404 ∧
+    (refMatch k01cSat false R k01cReq1 (cutAny k01cReq1.path)).ran = some 0 ∧
+    (refMatch k01cSat false R k01cReq2 (cutAny k01cReq2.path)).ran = some 1 ∧
+    classify k01cSat R k01cReq1 (cutAny k01cReq1.path) = "overwrite" :=
+  ⟨_, rfl, by decide, by decide, by decide, by decide, by decide, by decide⟩
+
+/-- K01f — constraints are checked only at the leaf the descent reaches -/
+def k01fSat : Nat → Bytes → Bool := fun _ v => v == B "12"
+def k01fScript : List Reg := [reg "GET" "/u/:id" [(B "id", 0)], reg "GET" "/u/*"]
+def k01fReq : Req := ⟨G, B "/u/abc", [B "filepath"]⟩
+
+theorem K01f_witness : ∃ R, specRoutes k01fScript = some R ∧ normal R = true ∧
+    (serve k01fSat (build false k01fScript) k01fReq).status = 404 ∧
+    (refMatch k01fSat false R k01fReq (cutAny k01fReq.path)).ran = some 1 ∧
+    classify k01fSat R k01fReq (cutAny k01fReq.path) = "cfall" :=
+  ⟨_, rfl, by decide, by decide, by decide, by decide⟩
+
+/-- K01d (repaired in e1ada5b) — as shipped, the parameter in a wildcard prefix was a literal edge -/
+def k01dScript : List Reg := [reg "GET" "/users/:id/files/*"]
+def k01dReq : Req := ⟨G, B "/users/42/files/a/b.txt", [B "id", B "filepath"]⟩
+
+theorem K01d_asIs_witness :
+    (serve anySat (buildAsIs false k01dScript) k01dReq).status = 404 ∧
+    (serve anySat (build false k01dScript) k01dReq).ran = some 0 ∧
+    (serve anySat (build false k01dScript) k01dReq).lookups = [(B "id", B "42"), (B "filepath", B "a/b.txt")] :=
+  ⟨by decide, by decide, by decide⟩
+
+/-- K01e (repaired in 14d2124) — as shipped, the constraints of a wildcard route were never validated -/
+def k01eSat : Nat → Bytes → Bool := fun _ v => v == B "12"
+def k01eScript : List Reg := [reg "GET" "/f/:id/*" [(B "id", 0)]]
+
+theorem K01e_asIs_witness :
+    ((getRouteGen true k01eSat ((treeOf (build false k01eScript) G).getD Tree.empty) (B "/f/abc/x") Ctx.fresh).1.map (·.rid)) = some 0 ∧
+    (getRoute k01eSat ((treeOf (build false k01eScript) G).getD Tree.empty) (B "/f/abc/x") Ctx.fresh).1 = none ∧
+    ((getRoute k01eSat ((treeOf (build false k01eScript) G).getD Tree.empty) (B "/f/12/x") Ctx.fresh).1.map (·.rid)) = some 0 :=
+  ⟨by decide, by decide, by decide⟩
+
+/-! ### non-vacuity: the hypotheses of the theorems are met by concrete non-trivial inputs -/
+
+def exSat : Nat → Bytes → Bool := fun _ v => v == B "42"
+def exScript : List Reg :=
+  [reg "GET" "/users/:id" [(B "id", 0)], reg "GET" "/users/list", reg "POST" "/users/:id",
+   ⟨B "GET", [B "/files", B "/v1"], B "/*", []⟩, reg "DELETE" "/"]
+def exReq : Req := ⟨G, B "/users/42", [B "id"]⟩
+def exReq405 : Req := ⟨B "PUT", B "/users/7", []⟩
+
+/-- the hypotheses of `dispatch_eq_ref_partial` hold for a script with a constrained parameter route, a
+static sibling, a second method, a wildcard registered through two groups and a root route; the
+outcome is the constrained route with its binding -/
+example : ∃ R, specRoutes exScript = some R ∧ normal R = true ∧ (∀ g ∈ exScript, g.method ∈ stdMethods) ∧
+    exReq.path.head? = some '/' ∧ dShadow R exReq (cutAny exReq.path) = false ∧
+    dNames R exReq (cutAny exReq.path) = false ∧ dCfall exSat R exReq (cutAny exReq.path) = false ∧
+    (serve exSat (build false exScript) exReq).ran = some 0 ∧
+    (serve exSat (build false exScript) exReq).lookups = [(B "id", B "42")] :=
+  ⟨_, rfl, by decide, by decide, by decide, by decide, by decide, by decide, by decide, by decide⟩
+
+/-- … and for a request that ends in 405 with two methods in `Allow` -/
+example : ∃ R, specRoutes exScript = some R ∧ normal R = true ∧
+    dShadow R exReq405 (cutAny exReq405.path) = false ∧ dNames R exReq405 (cutAny exReq405.path) = false ∧
+    dCfall exSat R exReq405 (cutAny exReq405.path) = false ∧
+    cands exSat R exReq405.method (cutAny exReq405.path) = [] ∧
+    (serve exSat (build false exScript) exReq405).status = 405 ∧
+    (serve exSat (build false exScript) exReq405).allow = [B "POST"] :=
+  ⟨_, rfl, by decide, by decide, by decide, by decide, by decide, by decide, by decide⟩
+
+/-- `lookup_sound` is not vacuous on a script that *is* in a recorded class (K01a) -/
+example : (serve anySat (build false k01aScript) k01aReq).ran = some 1 := by decide
 
 end Rivaas.C01
